@@ -85,7 +85,9 @@ def run(ctx):
                                "stand-in midicat helper and the verif-tagged hook used only to wait for quiescence"]
     ctx.assumptions += ["protocol-respecting: Listen only without an active listener; stop of the most recent listener any number of times until the next Listen; "
                         "testdrv in port closed only after stop; ports used from one goroutine except concurrent senders on the process-backed out port",
-                        "helper processes do not die by themselves (the property does not say what happens then)"]
+                        "helper processes do not die by themselves (the property does not say what happens then)",
+                        "'after a stop function returns, its listener is never called again' is read as: no listener code runs once stop() has returned "
+                        "(a callback in progress when stop() returns counts as a violation; MC_MidicatIn!NoCallbackRunningAfterStop)"]
     ctx.model_check("MC_Ports")
     ctx.model_check("MC_Ports", "MC_Ports_midicat.cfg")
     # the concurrent in port on the model: every interleaving of client / reader / control goroutines / helper
